@@ -2,6 +2,7 @@
 // stringify::format_function and move_formula::move_function, whole functions, verbatim.  As in unit parens, `format!` is a local macro that records
 // the structure of the text; the `String` these two functions build is read as the structure-recording type Txt below.
 use vstd::prelude::*;
+use vstd::string::*;
 macro_rules! format {
     ("{}{}{}", $a:expr, $k:expr, $b:expr $(,)?) => { more($a, $k, $b) };
     ("{},{}", $a:expr, $b:expr $(,)?) => { more($a, ',', $b) };          // a separator written into the format string is read as that character
@@ -56,6 +57,8 @@ pub fn to_string_moved(node: &Node, move_context: &MoveContext, locale: &Locale,
 //@rewrite `let mut arguments = "".to_string();` => `let mut arguments = empty();`
 //@rewrite* `symbols.decimal == "."` => `symbols.decimal.verif_is(".")`
 //@rewrite `for el in args {` => `for el in it: args.iter() {`
+//@before `let mut first = true;`
+    proof { reveal_strlit("."); }
 //@rewrite `format!("{name}({arguments})")` => `named(name, arguments)`
 //@loop 1
         invariant first == (it.index@ == 0), arguments.a@ == list(args@, it.index@, locale_sep(locale))
@@ -69,6 +72,8 @@ pub fn to_string_moved(node: &Node, move_context: &MoveContext, locale: &Locale,
 //@rewrite `let mut arguments = "".to_string();` => `let mut arguments = empty();`
 //@rewrite* `symbols.decimal == "."` => `symbols.decimal.verif_is(".")`
 //@rewrite `for el in args {` => `for el in it: args.iter() {`
+//@before `let mut first = true;`
+    proof { reveal_strlit("."); }
 //@rewrite `format!("{name}({arguments})")` => `named(name, arguments)`
 //@loop 1
         invariant first == (it.index@ == 0), arguments.a@ == list(args@, it.index@, locale_sep(locale))
